@@ -93,3 +93,65 @@ def dual_replay(pid, prefix, case):
     sub.known_open = {}
     dual_pass(sub, prefix, case["client"])
     return [(b, v["what"], v["case"]) for b, v in sub.found.items()]
+
+
+def boundary_frames(kinds=("single",), per_field=3):
+    """Single-frame CAN data for every (definition, field, boundary class): the systematic sweep of the codec checks, as frames.
+    -> list of (definition key, field id, class, pgn, data bytes)"""
+    db = canboat.db()
+    out = []
+    for d in db.defs:
+        if not d.supported or d.fast or d.ptype != "Single":
+            continue
+        bp, bn, _ = gen.benign_payload(d)
+        if bn > 8:
+            continue
+        pos = {e.field.index: e.pos for e in canboat.ref_decode(d, bp, bn)[0]}
+        for fi, cname, spec in gen.sweep_items(d):
+            f = d.fields[fi]
+            if fi not in pos:
+                continue
+            values = [spec] if isinstance(spec, int) else list(spec[1])[:per_field] if spec[0] == "choice" else []
+            if f.type == "BITLOOKUP":
+                values += [1 << b for b in range(f.bits)] + [(1 << f.bits) - 1, (1 << f.bits) - 2]
+            m = ((1 << f.bits) - 1) << pos[fi]
+            for v in values:
+                p = (bp & ~m) | ((v & ((1 << f.bits) - 1)) << pos[fi])
+                out.append((d.key, f.id, cname, d.pgn, p.to_bytes(max(bn, (pos[fi] + f.bits + 7) // 8), "little")[:8]))
+    return out
+
+
+def sweep_through_client(ctx, prefix, kind, part, parts, compare=True):
+    """Every boundary frame through one client of `kind`: the client keeps running (no hang, no lost heartbeat) and - if compare - delivers
+    exactly what a bare decoder returns."""
+    from . import wire
+    frames = boundary_frames()[part::parts]
+    msgs = [{"pgn": pgn, "src": 1 + i % 250, "dest": 255, "prio": 3, "payload": data} for i, (_, _, _, pgn, data) in enumerate(frames)]
+    chunks = []
+    for m in msgs:
+        i = wire.ident(m["pgn"], m["src"], m["dest"], 3)
+        if kind == "ebyte":
+            chunks.append(wire.ebyte(i, m["payload"]))
+        elif kind == "waveshare":
+            chunks.append(wire.usb(i, m["payload"]))
+        elif kind == "yd":
+            chunks.append((wire.yd(i, m["payload"]) + "\r\n").encode())
+        else:
+            chunks.append((wire.actisense(m["pgn"], m["src"], m["dest"], 3, m["payload"]) + "\r\n").encode())
+    got, s = aio.client_passthrough(kind, chunks, {})
+    ctx.count(len(chunks))
+    ctx.nontrivial_extra += len(chunks)
+    ctx.klass("boundary_frames_through_client", len(chunks))
+    case = {"sweep_client": kind, "part": part, "parts": parts}
+    if s.outcome != "ok":
+        ctx.report(f"{prefix}|{kind}|boundary-frames|{s.outcome}", f"feeding {len(chunks)} boundary frames: session ended with {s.outcome}: {s.errors[:1]} "
+                   f"({len(got)} messages had been delivered)", case)
+        return
+    if s.heartbeats < 0.9 * (s.elapsed / 0.1) - 2:
+        ctx.report(f"{prefix}|{kind}|boundary-frames|heartbeat-starved", f"{s.heartbeats} heartbeats in {s.elapsed:.1f} virtual s", case)
+    if compare:
+        exp, _ = aio.bare_decoder_delivery(kind, chunks, {})
+        a, b = [traffic.canon(m) for m in got], [traffic.canon(m) for m in exp]
+        if a != b:
+            k = next((i for i, (x, y) in enumerate(zip(a, b)) if x != y), min(len(a), len(b)))
+            ctx.report(f"{prefix}|{kind}|boundary-frames|delivery", f"client delivered {len(a)} messages, a decoder returns {len(b)}; first difference at message {k}", case)
